@@ -255,6 +255,16 @@ def flw1(ctx):
             if lc and (lc[0]["pat"].get("path") or "").endswith("Option::Some"):
                 ps = [p for p in hirq.walk(n["then"]) if p["e"] == "mcall" and p["name"] == "push"]
                 parse_calls = [c for c in hirq.walk(lc[0]["init"]) if c["e"] == "mcall" and (c.get("def") or "").endswith("parser::Parser::parse")]
+                if not parse_calls:
+                    # `let maybe_rule = Parser::new(..).parse()?; if let Some(rule) = maybe_rule { push }`
+                    prg_lets = {n2["pat"]["hid"]: n2["init"] for n2 in hirq.walk(prg.hir["body"])
+                                if n2["e"] == "let" and n2["pat"].get("p") == "bind" and n2.get("init") is not None and "hid" in n2["pat"]}
+                    h = hirq.path_hid(lc[0]["init"])
+                    hops = 0
+                    while h in prg_lets and hops < 4 and not parse_calls:
+                        parse_calls = [c for c in hirq.walk(prg_lets[h]) if c["e"] == "mcall" and (c.get("def") or "").endswith("parser::Parser::parse")]
+                        h = hirq.path_hid(prg_lets[h])
+                        hops += 1
                 if ps and parse_calls:
                     cond_push = ps[0]
     ok = cond_push is not None
@@ -600,6 +610,13 @@ def flw3(ctx):
     wloops = for_loops(gst[wl_i[0]])
     w = wloops[0] if wloops else None
     we = enumerate_index(w[0], w[1], with_adaptors=True, lets=lets) if w else None
+    by_ref = None
+    if w and not we:
+        # `for word in res.iter_mut()`: every word of the carried phrase, in order, by mutable reference
+        it0 = hirq.strip(w[1])
+        if it0.get("e") == "mcall" and it0["name"] == "iter_mut" and expr_name(it0["recv"]) == ("local", carried) and w[0].get("p") == "bind":
+            by_ref = w[0]["name"]
+            we = (None, by_ref, it0["recv"], [])
     okw = bool(we) and expr_name(we[2])[0] == "local" and expr_name(we[2])[1] in (p_phrase, carried) and not we[3]
     r.inst("tracer: word loop enumerates every word of the phrase", fn_loc(art, w[3]) if w else fn_loc(art), "ok" if okw else "report")
     if not okw:
@@ -626,7 +643,13 @@ def flw3(ctx):
     if len(st) == 1 and st[0].get("e") == "assign":
         lhs = hirq.strip(st[0]["lhs"])
         calls = [n for n in hirq.walk(st[0]["rhs"]) if n["e"] == "mcall" and (n.get("def") or "").endswith("rule::Rule::apply")]
-        if lhs.get("e") == "index" and len(calls) == 1:
+        if by_ref and lhs.get("e") == "unary" and lhs.get("op") == "Deref" and len(calls) == 1:
+            a0 = hirq.strip(calls[0]["args"][0])
+            while a0.get("e") == "mcall" and a0["name"] == "clone":
+                a0 = hirq.strip(a0["recv"])
+            okf = (expr_name(lhs["a"]) == ("local", by_ref) and expr_name(a0) == ("local", by_ref)
+                   and expr_name(calls[0]["recv"]) == ("local", sorted(_names(rule_loop[0][0]))[0]))
+        elif lhs.get("e") == "index" and len(calls) == 1:
             a0 = hirq.strip(calls[0]["args"][0])
             while a0.get("e") == "mcall" and a0["name"] == "clone":
                 a0 = hirq.strip(a0["recv"])
@@ -753,7 +776,7 @@ def _names(p):
 
 def flw10(ctx):
     """a match declared after the scan loop of input_match_at (the word ran out) must have tested how far the input was matched"""
-    r = RuleResult("FLW-10", "input_match_at: a match reported after the word ran out is conditioned on `state_index` (only the trailing boundary may be unmatched)", floor=1)
+    r = RuleResult("FLW-10", "input_match_at: a match reported after the word ran out is conditioned on `state_index` (only the trailing boundary may be unmatched); same for the insertion-point finders", floor=3)
     lib = ctx.lib
     b = ctx.fn(lib, "asca::subrule::SubRule::input_match_at")
     root = b.hir["body"]
@@ -794,4 +817,322 @@ def flw10(ctx):
                      "when the word runs out in the middle of an input match, a full match is reported without testing how many input elements were matched: unmatched elements before a trailing `$` are skipped and a rule that cannot match rewrites the word")
     if n == 0:
         raise AnchorMissing("input_match_at: no match returned after the scan loop (anchor for the end-of-word fallback)")
+    # the insertion-point finders: `Some(end of word)` after the scan loop only for a context that is a single boundary
+    for fname in ("insertion_after", "insertion_before"):
+        fb = ctx.fn(lib, "asca::subrule::SubRule::" + fname)
+        froot = fb.hir["body"]
+        fpar = hirq.parent_map(froot)
+        in_loop = set()
+        for l in [x for x in hirq.walk(froot) if x["e"] == "loop"]:
+            in_loop |= {id(x) for x in hirq.walk(l)}
+        states_p = fb.param_names[1]
+        seeds = {q.get("hid") for n_ in hirq.walk(froot) if n_["e"] == "let" for q in hirq.walk_pats(n_["pat"]) if q.get("p") == "bind" and q.get("name") == "state_index"}
+        derived = hirq.derived_hids(froot, seeds)
+        m = 0
+        for node in hirq.walk(froot):
+            if node["e"] != "call" or id(node) in in_loop or node.get("exp"):
+                continue
+            if not (hirq.strip(node["f"]).get("path") or "").endswith("Result::Ok"):
+                continue
+            a = hirq.strip(node["args"][0])
+            if not (a.get("e") == "call" and (hirq.strip(a["f"]).get("path") or "").endswith("Option::Some")):
+                continue
+            # only fallbacks placed after the scan loop
+            if not any(x["e"] == "loop" for x in hirq.walk(froot)) or node.get("ln", 0) < max(x["ln"] for x in hirq.walk(froot) if x["e"] == "loop"):
+                continue
+            m += 1
+            conds = []
+            x = fpar.get(id(node))
+            while x is not None:
+                if x.get("e") == "if":
+                    conds.append(x["cond"])
+                x = fpar.get(id(x))
+            tested = any((mm["e"] == "path" and (mm.get("local") == "state_index" or mm.get("hid") in derived)) or (
+                mm["e"] == "mcall" and mm["name"] == "len" and expr_name(mm["recv"]) == ("local", states_p)) for c in conds for mm in hirq.walk(c))
+            r.inst("%s: the end-of-word insertion point is returned only under a test of how much of the context there is / was matched" % fname, fn_loc(fb, node["ln"]), "ok" if tested else "report")
+            if not tested:
+                r.report("FLW-10|%s|fallback#%d" % (fname, m - 1), fn_loc(fb, node["ln"]), fb.path,
+                         "when nothing matched, the end of the word is returned as insertion point because the context ends (begins) with a boundary, whatever else the context requires: an insertion rule whose context needs an absent segment still fires")
+        if m == 0:
+            raise AnchorMissing("%s: end-of-word fallback not found" % fname)
+    return r
+
+
+# ---------------------------------------------------------------- FLW-11 one advance of the input state per matched element
+
+UNKNOWN = "*"
+
+
+class AdvanceCount:
+    """How often `*state_index` is advanced on the paths of an input matcher that end in success (`Ok(true)` or the
+    success of a tail call). Structural recursion over HIR; sets of counts; a loop that advances the index directly is
+    'unknown' (the ellipsis matchers consume several states on purpose)."""
+
+    def __init__(self, lib):
+        self.lib = lib
+        self.memo = {}
+        self.stack = []
+
+    def summary(self, path):
+        if path in self.memo:
+            return self.memo[path]
+        if path in self.stack:
+            return {UNKNOWN}
+        b = self.lib.body(path)
+        if b is None or not b.hir or "state_index" not in b.param_names:
+            return {0}
+        self.stack.append(path)
+        try:
+            out = set(self.tail(b.hir["body"], {0}))
+        finally:
+            self.stack.pop()
+        self.memo[path] = out or {0}
+        return self.memo[path]
+
+    @staticmethod
+    def add(a, b):
+        if UNKNOWN in a or UNKNOWN in b:
+            return {UNKNOWN}
+        return {x + y for x in a for y in b}
+
+    def callee(self, n):
+        d = n.get("def") if n["e"] == "mcall" else (hirq.strip(n["f"]).get("path") if hirq.strip(n["f"]).get("e") == "path" else None)
+        if not d:
+            return None
+        cb = self.lib.body(d)
+        if cb is None or "state_index" not in cb.param_names:
+            return None
+        args = ([n["recv"]] if n["e"] == "mcall" else []) + list(n["args"])
+        idx = cb.param_names.index("state_index")
+        if idx < len(args):
+            a = hirq.strip(args[idx])
+            while a.get("e") in ("addr", "unary"):
+                a = hirq.strip(a["a"])
+            # the index itself (or a reborrow of it) is handed over; `&mut state_index.clone()` is a copy the callee may advance freely
+            if a.get("e") == "path" and a.get("local") == "state_index":
+                return d
+        return None
+
+    def is_inc(self, n):
+        if n["e"] == "assignop" and n["op"] in ("AddAssign",):
+            return any(m["e"] == "path" and m.get("local") == "state_index" for m in hirq.walk(n["lhs"]))
+        return False
+
+    def cond(self, c):
+        """(counts added when the condition is true, counts when false)"""
+        c = hirq.strip(c)
+        while c.get("e") == "match" and str(c.get("src", "")).startswith("TryDesugar"):
+            sc = hirq.strip(c["scrut"])
+            c = hirq.strip(sc["args"][0]) if sc.get("e") == "call" and sc.get("args") else sc
+        if c.get("e") == "unary" and c.get("op") == "Not":
+            t, f = self.cond(c["a"])
+            return f, t
+        if c.get("e") == "binary" and c.get("op") == "And":
+            ta, fa = self.cond(c["a"])
+            tb, fb = self.cond(c["b"])
+            return self.add(ta, tb), fa | self.add(ta, fb)
+        if c.get("e") == "binary" and c.get("op") == "Or":
+            ta, fa = self.cond(c["a"])
+            tb, fb = self.cond(c["b"])
+            return ta | self.add(fa, tb), self.add(fa, fb)
+        if c.get("e") in ("mcall", "call"):
+            d = self.callee(c)
+            if d:
+                return set(self.summary(d)), {0}
+        return {0}, {0}
+
+    def is_fail(self, e):
+        """`Ok(false)`, `false`, `Err(..)`"""
+        e = hirq.strip(e)
+        if e.get("e") == "lit" and e.get("lit") is False:
+            return True
+        if e.get("e") == "call":
+            p = hirq.strip(e["f"]).get("path") or ""
+            if p.endswith("Result::Err"):
+                return True
+            if p.endswith("Result::Ok") and e["args"]:
+                return self.is_fail(e["args"][0])
+        return False
+
+    def tail(self, e, run):
+        """success counts contributed by the tail value of expression e, given the running counts"""
+        e = hirq.strip(e)
+        if not run:
+            return set()
+        k = e.get("e")
+        if k == "block":
+            r2, s2 = self.flow(e, run)
+            return s2 | (self.tail(e["tail"], r2) if e.get("tail") is not None else set())
+        if k == "if":
+            t, f = self.cond(e["cond"])
+            out = self.tail(e["then"], self.add(run, t))
+            if e.get("else") is not None:
+                out |= self.tail(e["else"], self.add(run, f))
+            return out
+        if k == "match":
+            if str(e.get("src", "")).startswith("TryDesugar"):
+                sc = hirq.strip(e["scrut"])
+                return self.tail(sc["args"][0] if sc.get("e") == "call" and sc.get("args") else sc, run)
+            out = set()
+            for arm in e["arms"]:
+                out |= self.tail(arm["body"], run)
+            return out
+        if self.is_fail(e):
+            return set()
+        if k in ("mcall", "call"):
+            d = self.callee(e)
+            if d:
+                return self.add(run, self.summary(d))
+            p = hirq.strip(e["f"]).get("path") if k == "call" else ""
+            if p and p.endswith("Result::Ok") and e["args"]:
+                return self.tail(e["args"][0], run)
+            if (p or "").startswith("core::panicking::"):
+                return set()
+        return set(run)
+
+    def flow(self, blk, run):
+        """statements of a block: (running counts after them, success counts of the `return`s inside)"""
+        blk = hirq.strip(blk) if blk.get("e") != "block" else blk
+        succ = set()
+        if blk.get("e") != "block":
+            return run, succ
+        for st in blk.get("stmts", []):
+            run, s2 = self.stmt(st, run)
+            succ |= s2
+        return run, succ
+
+    def stmt(self, st, run):
+        st0 = st if st.get("e") in ("let", "block") else hirq.strip(st)
+        k = st0.get("e")
+        succ = set()
+        if not run:
+            return run, succ
+        if k == "let":
+            if st0.get("init") is not None:
+                run, succ = self.expr_effect(st0["init"], run)
+            return run, succ
+        return self.expr_effect(st0, run)
+
+    def expr_effect(self, e, run):
+        """an expression evaluated for effect: (running counts afterwards, success counts of returns inside)"""
+        e = hirq.strip(e)
+        k = e.get("e")
+        succ = set()
+        if k == "block":
+            r2, s2 = self.flow(e, run)
+            if e.get("tail") is not None:
+                r2, s3 = self.expr_effect(e["tail"], r2)
+                s2 |= s3
+            return r2, s2
+        if k == "ret":
+            a = e.get("a")
+            if a is not None:
+                succ |= self.tail(a, run)
+            return set(), succ
+        if k in ("break", "continue"):
+            return set(), succ
+        if k == "if":
+            t, f = self.cond(e["cond"])
+            r1, s1 = self.expr_effect(e["then"], self.add(run, t))
+            if e.get("else") is not None:
+                r2, s2 = self.expr_effect(e["else"], self.add(run, f))
+            else:
+                r2, s2 = self.add(run, f), set()
+            return r1 | r2, s1 | s2
+        if k == "match":
+            if str(e.get("src", "")).startswith("TryDesugar"):
+                sc = hirq.strip(e["scrut"])
+                return self.expr_effect(sc["args"][0] if sc.get("e") == "call" and sc.get("args") else sc, run)
+            rr, ss = set(), set()
+            for arm in e["arms"]:
+                r1, s1 = self.expr_effect(arm["body"], run)
+                rr |= r1
+                ss |= s1
+            return rr, ss
+        if k == "loop":
+            body = e["body"]
+            direct = any(self.is_inc(n) or (n["e"] == "assign" and any(m["e"] == "path" and m.get("local") == "state_index" for m in hirq.walk(n["lhs"]))) for n in hirq.walk(body))
+            if direct:
+                return {UNKNOWN}, {UNKNOWN}
+            r1, s1 = self.expr_effect(body, run)       # the successful alternative is tried once
+            return run | r1, s1
+        if self.is_inc(e):
+            return self.add(run, {1}), succ
+        if k == "assign" and any(m["e"] == "path" and m.get("local") == "state_index" for m in hirq.walk(e["lhs"])):
+            return {UNKNOWN}, succ
+        if k in ("mcall", "call"):
+            d = self.callee(e)
+            if d:
+                return self.add(run, self.summary(d)) | run, succ
+            for a in ([e["recv"]] if k == "mcall" else []) + list(e["args"]):
+                run, s1 = self.expr_effect(a, run)
+                succ |= s1
+            return run, succ
+        if k in ("binary", "unary", "addr", "cast", "field", "index"):
+            for key in ("a", "b", "i"):
+                if isinstance(e.get(key), dict):
+                    run, s1 = self.expr_effect(e[key], run)
+                    succ |= s1
+            return run, succ
+        return run, succ
+
+
+def flw11(ctx):
+    r = RuleResult("FLW-11", "every matched input element advances the input state by exactly one (no element after it is skipped, none is matched twice)", floor=9)
+    lib = ctx.lib
+    b = ctx.fn(lib, "asca::subrule::SubRule::input_match_item")
+    ac = AdvanceCount(lib)
+    PEL = "asca::parser::ParseElement::"
+    target = None
+    for m in hirq.matches(b):
+        if (m.get("sty") or "").lstrip("&").endswith("parser::ParseElement"):
+            target = m
+            break
+    if target is None:
+        raise AnchorMissing("input_match_item: match on the element kind not found")
+    n = 0
+    for arm in target["arms"]:
+        kinds = [(p.get("path") or "")[len(PEL):] for p in hirq.flat_pats(arm["pat"]) if (p.get("path") or "").startswith(PEL)]
+        if hirq.arm_is_pure_panic(arm["body"]):
+            continue
+        counts = ac.tail(arm["body"], {0})
+        n += 1
+        label = "/".join(kinds) or "?"
+        if UNKNOWN in counts:
+            r.inst("%s: advances the state inside a loop (several states consumed on purpose) — not counted" % label, fn_loc(b, arm["ln"]), "accepted:loop", nontrivial=False)
+            continue
+        bad = sorted(c for c in counts if c != 1)
+        r.inst("%s: a match advances the input state by %s" % (label, sorted(counts)), fn_loc(b, arm["ln"]), "ok" if not bad else "report")
+        for c in bad:
+            r.report("FLW-11|input_match_item|%s|%d" % (label, c), fn_loc(b, arm["ln"]), b.path,
+                     "a matched %s element can advance the input state by %d instead of 1: %s" % (
+                         label, c, "the element after it is never tested — a rule whose input needs an absent segment there still fires" if c > 1 else "the same element is matched again"))
+    if n < 6:
+        raise AnchorMissing("input_match_item: only %d element arms analysed" % n)
+    # the loop that matches the elements after an input ellipsis: each iteration that does not leave the loop advances the
+    # index exactly once (through input_match_item only)
+    eb = ctx.fn(lib, "asca::subrule::SubRule::input_match_ellipsis")
+    item = b.path
+    k = 0
+    for lp in [x for x in hirq.walk(eb.hir["body"]) if x["e"] == "loop"]:
+        body = lp["body"]
+        calls = [x for x in hirq.walk(body) if x["e"] == "mcall" and (x.get("def") or "") == item]
+        inner_loops = [x for x in hirq.walk(body) if x["e"] == "loop" and x is not lp]
+        if not calls or any(any(c is y for y in hirq.walk(il)) for il in inner_loops for c in calls):
+            continue          # the call sits in a nested loop: that loop is judged on its own
+        # the loop body is `if <cond> { <body> } else { break }`
+        inner = hirq.strip(body)
+        blk = inner["then"] if inner.get("e") == "if" else body
+        ac2 = AdvanceCount(lib)
+        ac2.memo[item] = {1}          # established above (or reported)
+        run, _ = ac2.expr_effect(blk, {0})
+        per = set(run)
+        ok = per == {1}
+        r.inst("input_match_ellipsis: loop #%d advances the input state by %s per matched element" % (k, sorted(per, key=str)), fn_loc(eb, lp["ln"]), "ok" if ok else "report")
+        if not ok:
+            r.report("FLW-11|input_match_ellipsis|loop#%d" % k, fn_loc(eb, lp["ln"]), eb.path,
+                     "after an input ellipsis each matched element advances the input state by %s instead of 1: of the elements following `...` some are never tested" % sorted(per, key=str))
+        k += 1
+    if k == 0:
+        raise AnchorMissing("input_match_ellipsis: the loop over the elements after the ellipsis was not found")
     return r
